@@ -162,9 +162,14 @@ class TrinoParser(PrestoParser):
 
         this = tail = parse_branch()
         while self._prev.text.upper() == "ELSEIF":
+            position = (self._chunk_index, self._index)
             node = parse_branch()
             tail.set("false", node)
             tail = node
+            if (self._chunk_index, self._index) == position:
+                # Nothing was consumed (end of input): `_prev` would stay ELSEIF forever
+                self.raise_error("Expected ELSEIF branch")
+                break
 
         if self._prev.text.upper() == "ELSE":
             tail.set(
@@ -190,7 +195,12 @@ class TrinoParser(PrestoParser):
         ifs = []
         self._match_text_seq("WHEN")
         while self._prev.text.upper() == "WHEN":
+            position = (self._chunk_index, self._index)
             ifs.append(parse_branch())
+            if (self._chunk_index, self._index) == position:
+                # Nothing was consumed (end of input): `_prev` would stay WHEN forever
+                self.raise_error("Expected CASE branch")
+                break
 
         default = None
         if self._prev.text.upper() == "ELSE":
